@@ -1,8 +1,18 @@
-(* C29 - the asyncio API matches the sync API and is safe under cancellation (partial: see specs/c29.py) *)
-From Coq Require Import List Bool.
+(* C29 - the asyncio API matches the sync API and is safe under cancellation.
+   PARTIAL (see specs/c29.py LEVEL_NOTE): the model covers AsyncEngine/AsyncConnection on an asyncio
+   DBAPI adapter with the operation alphabet begin / insert / select / commit / rollback and three block
+   styles; savepoints, engine.begin() and AsyncSession are checked differentially only.  The safety
+   theorems are for at most ONE cancellation per case (any position, request taking effect or not);
+   a second cancellation inside terminate() is refuted below.  Trusted: greenlet switch/throw, the
+   event loop's delivery of cancellations, the driver model io_step. *)
+From Coq Require Import List ZArith Bool Arith.
 Import ListNotations.
-From SAV.engine Require Import Async.
+From SAV.engine Require Import Async AsyncConn AsyncExec AsyncWorld AsyncSafe AsyncApi AsyncWitness.
+Open Scope Z_scope.
 
+(* ---- 1. the trampoline: every sync program, every driver ---- *)
+(* a coroutine that runs sync code [fn] through greenlet_spawn, on the event loop without cancellation:
+   same result, same final world, the same awaitables in the same order as calling [fn] directly *)
 Theorem c29_trampoline_transparent :
   forall (IO V E W R : Type) (step : W -> IO -> (V + E) * W) (cancel_step : W -> IO -> W)
          (suspends : IO -> bool) (cancelled : E) (no_await : R -> R) (fn : prog IO V E R) (w : W),
@@ -10,3 +20,110 @@ Theorem c29_trampoline_transparent :
     run_sync step fn w = (r, w', flat_map ev_io t) /\ Forall ev_uncancelled t.
 Proof. exact trampoline_transparent. Qed.
 Print Assumptions c29_trampoline_transparent.
+
+(* the same with _require_await=True for code that awaits at least once ... *)
+Theorem c29_trampoline_transparent_require :
+  forall (IO V E W R : Type) (step : W -> IO -> (V + E) * W) (cancel_step : W -> IO -> W)
+         (suspends : IO -> bool) (cancelled : E) (no_await : R -> R) (fn : prog IO V E R) (w : W),
+    switches fn ->
+    let '(r, w', _, t) := run_loop step cancel_step suspends cancelled (greenlet_spawn no_await true fn) w [] in
+    run_sync step fn w = (r, w', flat_map ev_io t) /\ Forall ev_uncancelled t.
+Proof. exact trampoline_transparent_require. Qed.
+Print Assumptions c29_trampoline_transparent_require.
+
+(* ... and the only other case: a function that returned without awaiting gets AwaitRequired *)
+Theorem c29_require_await_without_switch :
+  forall (IO V E R : Type) (no_await : R -> R) (r : R),
+    greenlet_spawn (IO := IO) (V := V) (E := E) no_await true (Ret r) = Ret (no_await r).
+Proof. exact spawn_require_no_switch. Qed.
+Print Assumptions c29_require_await_without_switch.
+
+(* the trees are even equal as trees (what the coroutine awaits IS what the sync code calls) *)
+Theorem c29_greenlet_spawn_identity :
+  forall (IO V E R : Type) (no_await : R -> R) (fn : prog IO V E R), peq (greenlet_spawn no_await false fn) fn.
+Proof. exact spawn_transparent. Qed.
+Print Assumptions c29_greenlet_spawn_identity.
+
+(* ---- 2. the API: AsyncEngine/AsyncConnection vs Engine/Connection, every block, every state ---- *)
+Theorem c29_api_transparent :
+  forall (cf : cfg) (sty : style) (ops : list op) (s : pst) (w : world),
+    let '(r, w', _, t) := run_loop io_step io_cancel_step io_suspends ECancelled (block cf async_api sty ops s) w [] in
+    run_sync io_step (block cf sync_api sty ops s) w = (r, w', flat_map ev_io t) /\ Forall ev_uncancelled t.
+Proof. exact api_transparent. Qed.
+Print Assumptions c29_api_transparent.
+
+(* Connection.execute on the asyncio adapter never returns normally without an await, so
+   _require_await never fires on it *)
+Theorem c29_execute_always_awaits :
+  forall (cf : cfg) (st : stmt) (s : pst), ~ rok (conn_execute cf st s).
+Proof. exact not_rok_conn_execute. Qed.
+Print Assumptions c29_execute_always_awaits.
+
+(* ---- 3. cancellation ---- *)
+(* what "safe" means, spelled out: nothing is checked out (checkedout() = 0), every record handed out
+   came back exactly once, every pooled connection is alive and no connection of the driver is left in
+   a transaction, nothing waits for the garbage collector *)
+Theorem c29_done_spelled :
+  forall (cf : cfg) (s : pst) (w : world), Done cf s w ->
+    psize cf - Z.of_nat (length (q s)) + ov s = 0 /\
+    n_out s = n_in s /\
+    (forall r c, In r (q s) -> r_conn r = Some c -> d_open (getc w c) = true /\ d_txn (getc w c) = false) /\
+    NoDup (qconns (q s)) /\
+    (forall c, d_txn (getc w c) = false) /\
+    cur_fairy s = false /\ oom s = false.
+Proof.
+  intros cf s w [D1 D2 D3 D4 D5 D6 D7 D8]. repeat split; auto.
+  - rewrite D2. apply Z.sub_diag_iff_eq. ring.
+  - unfold qok in D4. rewrite Forall_forall in D4. destruct (D4 r H) as [_ B]. rewrite H0 in B. tauto.
+Qed.
+Print Assumptions c29_done_spelled.
+
+(* a block closed by `async with` or by try/finally (after /repo 51edfd0): for every program, every
+   single cancellation position, both "the cancelled request took effect / did not": safe as soon as
+   the task has ended, without any help from the garbage collector and without a warning *)
+Theorem c29_cancel_safe_block :
+  forall (cf : cfg), 1 <= psize cf ->
+  forall (sty : style) (ops : list op) (s : pst) (w : world) (cs : list cdec),
+    sty <> SLeak -> Done cf s w -> (ncancel cs <= 1)%nat ->
+    let '(_, s', w', cs') := exec (block cf async_api sty ops) s w cs in
+    Done cf s' w' /\ n_warn s' = n_warn s /\ (ncancel cs' <= 1)%nat.
+Proof. exact block_safe. Qed.
+Print Assumptions c29_cancel_safe_block.
+
+(* a connection that is never closed: the collector cannot reset it asynchronously; it is detached,
+   terminated and its record goes back empty (at most one warning) *)
+Theorem c29_cancel_safe_leak :
+  forall (cf : cfg), 1 <= psize cf ->
+  forall (ops : list op) (s : pst) (w : world) (cs : list cdec),
+    Done cf s w -> (ncancel cs <= 1)%nat ->
+    let '(_, s1, w1, cs1) := exec (block cf async_api SLeak ops) s w cs in
+    let '(_, s', w', _) := exec (gc_collect cf) s1 w1 [] in
+    Done cf s' w' /\ (n_warn s' <= S (n_warn s))%nat /\ (ncancel cs1 <= 1)%nat.
+Proof. exact leak_safe. Qed.
+Print Assumptions c29_cancel_safe_leak.
+
+(* any sequence of tasks on a fresh engine, one cancellation anywhere *)
+Theorem c29_cancel_safe_tasks :
+  forall (cf : cfg), 1 <= psize cf ->
+  forall (bs : list (style * list op)) (cs : list cdec), (ncancel cs <= 1)%nat ->
+    let '(s', w', _) := run_tasks cf bs (init_pst cf) init_world cs in Done cf s' w'.
+Proof.
+  intros cf H bs cs Hc. pose proof (tasks_safe cf H bs (init_pst cf) init_world cs (init_done cf H) Hc) as T.
+  destruct (run_tasks cf bs (init_pst cf) init_world cs) as [[s' w'] cs']. exact (proj1 T).
+Qed.
+Print Assumptions c29_cancel_safe_tasks.
+
+Example c29_hypotheses_satisfiable : Done cf2 (init_pst cf2) init_world /\ 1 <= psize cf2.
+Proof. split; [apply init_done|]; vm_compute; discriminate. Qed.
+
+(* two cancellations: refuted (the clean-up itself is cancelled inside terminate()) *)
+Theorem c29_double_cancel_refuted :
+  ncancel w_cs = 2%nat /\
+  let '(r, w', _, _) := rl (block cf2 async_api SCtx w_ops (init_pst cf2)) init_world w_cs in
+  fst r = Raise ECancelled /\ dead_pooled (snd r) w' /\ ~ Done cf2 (snd r) w'.
+Proof.
+  destruct double_cancel_witness as [A B]. split; [exact A|].
+  destruct (rl (block cf2 async_api SCtx w_ops (init_pst cf2)) init_world w_cs) as [[[r w'] c'] t].
+  destruct B as [B1 B2]. split; [exact B1|]. split; [exact B2|]. apply dead_pooled_not_done. exact B2.
+Qed.
+Print Assumptions c29_double_cancel_refuted.
